@@ -31,7 +31,14 @@ where
             1u32.into(),
         );
 
-        let lvl_1_ks: usize = self.glwe_keyswitch_tmp_bytes_default(glwe_infos, glwe_infos, key_infos);
+        // The key-switch acts on the temporary GLWE built from the LWE: radix of the key, precision of the LWE.
+        let glwe_tmp_infos: GLWELayout = GLWELayout {
+            n: self.n().into(),
+            base2k: key_infos.base2k(),
+            k: lwe_infos.max_k(),
+            rank: 1u32.into(),
+        };
+        let lvl_1_ks: usize = self.glwe_keyswitch_tmp_bytes_default(glwe_infos, &glwe_tmp_infos, key_infos);
         let lvl_1_a_conv: usize = if lwe_infos.base2k() == key_infos.base2k() {
             0
         } else {
